@@ -68,6 +68,20 @@ func buildAccount(ct c13Content, r *Rng) *jwt.AccountClaims {
 		s := s
 		steps = append(steps, func() { a.AddMapping(jwt.Subject(s), jwt.WeightedMapping{Subject: jwt.Subject("to." + s), Weight: 40}) })
 	}
+	if len(ct.Tiers)%2 == 1 {
+		// imports whose subjects differ only by letter case are different subjects: Encode orders them, so the order
+		// in which they were added must not show in the token
+		for _, sub := range []string{"Ord.created", "ord.created", "ORD.created"} {
+			sub := sub
+			steps = append(steps, func() {
+				a.Imports.Add(&jwt.Import{Subject: jwt.Subject(sub), Account: kr.acct[1], Type: jwt.Stream})
+			})
+		}
+		for _, sub := range []string{"Exp.x", "exp.x"} {
+			sub := sub
+			steps = append(steps, func() { a.Exports.Add(&jwt.Export{Subject: jwt.Subject(sub), Type: jwt.Stream}) })
+		}
+	}
 	for _, t := range ct.Tiers {
 		t := t
 		steps = append(steps, func() {
@@ -120,7 +134,7 @@ func buildGeneric(ct c13Content, r *Rng) *jwt.GenericClaims {
 }
 
 func runC13(c *Ctx) {
-	c.Res.Rule = "equal contents built through random insertion orders of signing keys (plain, scoped, and scoped entries whose Key field was re-keyed to collide with another entry), account and export revocations, mappings, limit tiers and generic data (half of the accounts also carry two exports and two imports with one and the same subject; incl. a nested object; tier and mapping names that differ only by case or padding, with different values); every tenth content carries a revocation list of 150-300 entries with a covering wildcard; every third object first encoded with different standard fields and then edited back (equal content through a different history); each object encoded repeatedly in one process (the runtime re-randomises map iteration per loop) under GOMAXPROCS 1 and 16; all tokens whose issue time agrees must be byte-identical, across objects and across repetitions. Each object also goes through the Lean model's Encode. non-trivial = distinct contents."
+	c.Res.Rule = "equal contents built through random insertion orders of signing keys (plain, scoped, and scoped entries whose Key field was re-keyed to collide with another entry), account and export revocations, mappings, limit tiers and generic data (half of the accounts also carry two exports and two imports with one and the same subject, and imports / exports whose subjects differ only by letter case, added in random order; incl. a nested object; tier and mapping names that differ only by case or padding, with different values); every tenth content carries a revocation list of 150-300 entries with a covering wildcard; every third object first encoded with different standard fields and then edited back (equal content through a different history); each object encoded repeatedly in one process (the runtime re-randomises map iteration per loop) under GOMAXPROCS 1 and 16; all tokens whose issue time agrees must be byte-identical, across objects and across repetitions. Each object also goes through the Lean model's Encode. non-trivial = distinct contents."
 	old := runtime.GOMAXPROCS(0)
 	defer runtime.GOMAXPROCS(old)
 	nContents := c.N(60, 3000)
